@@ -23,19 +23,27 @@ Ids implemented (C01 unless noted):
   std-floor-ceiling-not-sql       static (C09): floor()/ceiling() in the standard dialect
   duration-empty                  static (C09): a duration literal without components
 ORM properties (C02 / C03 / C04 / C15):
+  sqlite-like-ascii-case, like-field-pattern-wildcards   dynamic, as above; the second one is also stated on the filter:
+                                  the reference *value* of a non-literal 2nd argument of contains/startswith/endswith
+                                  contains % or _ (ctx key nonliteral_patterns)
   django-concat-null-as-empty     dynamic: some COALESCE(x, '') (Django's Concat) reads a NULL x as the empty string
-  sa-div-true-division            static: SQLAlchemy back end and the filter uses `div`
-  sa-function-missing-on-sqlite   static: SQLAlchemy back end and the filter uses indexof / concat (strpos / concat do not
-                                  exist in this SQLite)
-  sa-boolean-literal-case         static: keyword-case obligation of a filter with a boolean literal (SQLAlchemy)
-  sa-like-literal-wildcards       static: SQLAlchemy back end, contains/startswith/endswith literal with % or _
-  sa-null-literal-on-left         static: SQLAlchemy back end, `null eq x`
-  django-all-lambda-inverted      static: Django back end and the filter uses all(x: p)
-  sa-to-one-inner-join            static: SQLAlchemy back end and the filter navigates a to-one path (also as the owner of
-                                  a collection)
-  sa-outer-column-in-lambda       static: SQLAlchemy back end, a column of the root used inside a lambda body
-  sa-lambda-inner-join-dropped    static: SQLAlchemy back end, a to-one path inside a lambda body
-  sa-self-referential-navigation  static: SQLAlchemy back end, navigation through the self-referential boss/minions
+  sa-div-true-division            dynamic, adjusted reference: rows on which the program agrees with the reference read
+                                  with `div` as REAL division are explained by the finding; a row on which it disagrees
+                                  with both readings is still a VIOLATION
+  sa-function-missing-on-sqlite   assumption, program still checked in full: strpos() read as INSTR(), concat() as || ;
+                                  replayed on a connection with these two functions registered
+  django-constant-null-test       static: Django, a null test on a constant expression used as operand of a comparison
+  django-nested-compare-parens    static: Django, a comparison / null test / in / LIKE predicate whose own left operand is
+                                  rendered in parentheses (arithmetic, comparison, NOT, in, indexof, concat) and that is
+                                  the right operand of a comparison, or a null test applied to a `not` expression
+                                  (Django wraps a nested lookup in parentheses only if its SQL does not already start
+                                  with one)
+  django-outer-column-in-lambda / sa-outer-column-in-lambda   static: a column of the root ($it) inside a lambda body
+  sa-lambda-inner-join-dropped    static: SQLAlchemy, to-one navigation (as a value or as owner of a collection) inside a
+                                  lambda body
+  sa-same-table-twice             static: SQLAlchemy, two different to-one paths into the same table outside lambdas
+  sa-self-referential-navigation  static: SQLAlchemy, navigation through the self-referential boss (the back end raises
+                                  InvalidRequestError; witness key expect_crash)
 """
 from __future__ import annotations
 
@@ -67,7 +75,18 @@ def _not_coalesced_null(ctx) -> Any:
     return z3.And(conds) if conds else V.TRUE
 
 
+def _not_explained_by_real_div(ctx) -> Any:
+    """Adjusted reference: the program is compared with the reference in which `div` is REAL division.  A row on
+    which the program agrees with that reading is explained by the known defect; only rows on which it disagrees
+    with BOTH readings remain candidates."""
+    adj = ctx.get("adjusted", {}).get("real_div")
+    if adj is None or ctx.get("sql_keep") is None:
+        return V.TRUE
+    return ctx["sql_keep"] != adj
+
+
 DYNAMIC: Dict[str, Callable[[dict], Any]] = {
+    "sa-div-true-division": _not_explained_by_real_div,
     "django-concat-null-as-empty": _not_coalesced_null,
     "sqlite-like-ascii-case": _not_case_region,
     "like-field-pattern-wildcards": _not_field_wildcards,
@@ -105,17 +124,26 @@ def _is_sa(ctx) -> bool:
     return str(ctx.get("backend", "")).startswith("sa")
 
 
+def _is_dj(ctx) -> bool:
+    return ctx.get("backend") == "django"
+
+
+# ids whose region is an ASSUMPTION under which the program is still checked in full (see orm.py):
+#   sa-function-missing-on-sqlite   strpos() is read as INSTR() and concat() as || ; replay on a connection where the two
+#                                   functions are registered with exactly that meaning
+ASSUMED = {"sa-function-missing-on-sqlite"}
+
 STATIC.update({
-    # ---- ORM back ends (C02 / C03 / C04 / C15); ctx carries backend, ob, variant
-    "sa-div-true-division": lambda ctx: _is_sa(ctx) and "op:div" in ctx["features"],
-    "sa-function-missing-on-sqlite": lambda ctx: _is_sa(ctx) and ("fn:indexof" in ctx["features"] or "fn:concat" in ctx["features"]),
-    "sa-boolean-literal-case": lambda ctx: _is_sa(ctx) and ctx.get("ob") == "case" and "bool-literal" in ctx["features"],
-    "sa-like-literal-wildcards": lambda ctx: _is_sa(ctx) and "like-literal-wildcard" in ctx["features"],
-    "sa-null-literal-on-left": lambda ctx: _is_sa(ctx) and "null-on-left" in ctx["features"],
-    "django-all-lambda-inverted": lambda ctx: ctx.get("backend") == "django" and "lambda:all" in ctx["features"],
-    "sa-to-one-inner-join": lambda ctx: _is_sa(ctx) and ("path" in ctx["features"] or "collection-via-to-one" in ctx["features"]),
+    # ---- ORM back ends (C02 / C03 / C04 / C15); ctx carries backend, ob, variant.  Static regions are kept only where
+    # the emitted statement is structurally wrong (or the back end raises); they are as narrow as the features allow.
+    "django-constant-null-test": lambda ctx: _is_dj(ctx) and "constant-null-test-as-operand" in ctx["features"],
+    "django-nested-compare-parens": lambda ctx: _is_dj(ctx) and ("cmp-operand-is-cmp-of-arith" in ctx["features"]
+                                                                 or "nested-lookup-with-compound-left" in ctx["features"]),
+    "django-outer-column-in-lambda": lambda ctx: _is_dj(ctx) and "outer-ref-in-lambda" in ctx["features"],
     "sa-outer-column-in-lambda": lambda ctx: _is_sa(ctx) and "outer-ref-in-lambda" in ctx["features"],
-    "sa-lambda-inner-join-dropped": lambda ctx: _is_sa(ctx) and "path-inside-lambda" in ctx["features"],
+    "sa-lambda-inner-join-dropped": lambda ctx: _is_sa(ctx) and ("path-inside-lambda" in ctx["features"]
+                                                                 or "collection-via-to-one-inside-lambda" in ctx["features"]),
+    "sa-same-table-twice": lambda ctx: _is_sa(ctx) and "two-paths-same-table" in ctx["features"],
     "sa-self-referential-navigation": lambda ctx: _is_sa(ctx) and "self-path" in ctx["features"],
 })
 
@@ -132,3 +160,71 @@ def static_hit(active: List[str], ctx: dict) -> Optional[str]:
 
 def dynamic_constraints(active: List[str], ctx: dict) -> List[Any]:
     return [DYNAMIC[rid](ctx) for rid in active if rid in DYNAMIC]
+
+
+def dynamic_map(active: List[str], ctx: dict) -> Dict[str, Any]:
+    """{id -> `not region` constraint} for the active dynamic regions that say something about this program."""
+    out = {}
+    for rid in active:
+        if rid in DYNAMIC:
+            c = DYNAMIC[rid](ctx)
+            if not z3.is_true(c):
+                out[rid] = c
+    return out
+
+
+def solve_with_regions(make_solver: Callable[[], Any], disagree, region_map: Dict[str, Any], extra_side=()) -> dict:
+    """Decide one obligation in the presence of known-finding regions.
+
+      sat      a counterexample OUTSIDE every active region exists (result['solver'] holds the model)  -> candidate
+      known    counterexamples exist, but only inside the regions; result['known_id'] names the (first) region that
+               alone explains them
+      unsat    no counterexample at all
+      vacuous  the assumptions alone are unsatisfiable (nothing was checked)
+      unknown  z3 gave up (result['why'])
+    The vacuity check and the `known` decision never use the region constraints themselves."""
+    import time
+    t0 = time.time()
+    out: Dict[str, Any] = {"known_id": None, "why": None}
+
+    def done(status):
+        out["status"] = status
+        out["solver_s"] = round(time.time() - t0, 4)
+        return out
+
+    s = make_solver()
+    s.add(list(extra_side))
+    s.add(list(region_map.values()))
+    s.add(disagree)
+    r = s.check()
+    if r == z3.sat:
+        out["solver"] = s
+        return done("sat")
+    if r == z3.unknown:
+        out["why"] = f"z3: {s.reason_unknown()}"
+        return done("unknown")
+    if region_map:
+        s2 = make_solver()
+        s2.add(disagree)
+        r2 = s2.check()
+        if r2 == z3.unknown:
+            out["why"] = f"z3 (without regions): {s2.reason_unknown()}"
+            return done("unknown")
+        if r2 == z3.sat:
+            out["known_id"] = next(iter(region_map))
+            for rid, c in region_map.items():
+                s3 = make_solver()
+                s3.add(c)
+                s3.add(disagree)
+                if s3.check() == z3.unsat:
+                    out["known_id"] = rid
+                    break
+            return done("known")
+    s4 = make_solver()
+    r4 = s4.check()
+    if r4 == z3.unsat:
+        return done("vacuous")
+    if r4 != z3.sat:
+        out["why"] = f"vacuity check: z3 {r4}"
+        return done("unknown")
+    return done("unsat")
